@@ -2482,6 +2482,9 @@ class Exec:
             if dt:
                 raise Unsupported("np.zeros dtype")
             return SList(z3.K(INT, z3.RealVal(0)), n, "real")
+        if full == "numpy.empty" and not e.keywords and not isinstance(args[0], tuple):
+            # uninitialised memory: a vector of unknown reals (nothing is known about an element until it is written)
+            return fresh_list("empty", "real", args[0])
         if full == "numpy.asarray":
             return args[0]
         if full == "time.time":
